@@ -1215,3 +1215,84 @@ func (r *Run) OnCondMustNotCall(fnName, cond string, matches []string, why strin
 	}
 	r.viol("K2-on-cond-not", fnName, construct, fnName+" no longer branches on "+cond, why, file, line)
 }
+
+// EffectRows: shorthand for several Has rows on one function.
+func (r *Run) EffectRows(fnName string, canons []string, why string) {
+	for _, c := range canons {
+		r.Has(fnName, c, why)
+	}
+}
+
+// BinOpWidth: every integer + and * in fn operates on values at least `bits` wide.
+func (r *Run) BinOpWidth(fnName string, bits int, why string) {
+	fn := r.fn(fnName)
+	if fn == nil {
+		return
+	}
+	file, line := r.P.FnPos(fn)
+	n := 0
+	for _, b := range fn.Blocks {
+		for _, in := range b.Instrs {
+			bo, ok := in.(*ssa.BinOp)
+			if !ok || (bo.Op.String() != "*" && bo.Op.String() != "+") {
+				continue
+			}
+			bt, ok := bo.Type().Underlying().(*types.Basic)
+			if !ok || bt.Info()&types.IsInteger == 0 {
+				continue
+			}
+			n++
+			w := 64
+			switch bt.Kind() {
+			case types.Int8, types.Uint8:
+				w = 8
+			case types.Int16, types.Uint16:
+				w = 16
+			case types.Int32, types.Uint32:
+				w = 32
+			}
+			if w < bits {
+				f2, l2 := r.P.Pos(bo.Pos())
+				r.viol("K11-narrow-arithmetic", fnName, fmt.Sprintf("arithmetic in >= %d bits", bits), fmt.Sprintf("%s at %s:%d is computed in %d bits on request-controlled operands: it wraps for large inputs", r.P.Env(fn).of(bo).String(), f2, l2, w), why, f2, l2)
+				return
+			}
+		}
+	}
+	if n == 0 {
+		r.viol("K11-narrow-arithmetic", fnName, fmt.Sprintf("arithmetic in >= %d bits", bits), "no arithmetic found (anchor changed)", why, file, line)
+		return
+	}
+	r.pass("K11-narrow-arithmetic", fnName, fmt.Sprintf("arithmetic in >= %d bits", bits), fmt.Sprintf("%d operations", n), why, file, line)
+}
+
+// RecoverCovers: fn installs a recovering, swallowing defer that dominates every call matching one
+// of the matchers.
+func (r *Run) RecoverCovers(fnName string, matches []string, why string) {
+	fn := r.fn(fnName)
+	if fn == nil {
+		return
+	}
+	file, line := r.P.FnPos(fn)
+	construct := "recover covers " + strings.Join(matches, ",")
+	d := r.P.deferredRecover(fn)
+	if d == nil {
+		r.viol("K8-recover", fnName, construct, fnName+" no longer defers a closure that recovers and swallows panics", why, file, line)
+		return
+	}
+	n := 0
+	for _, m := range matches {
+		for _, cs := range r.P.FindCalls(fn, m, false) {
+			n++
+			if !instrDominates(d, cs.Instr.(ssa.Instruction)) {
+				r.viol("K8-recover", fnName, construct, fmt.Sprintf("%s at %s:%d executes outside the recovering defer", m, cs.File, cs.Line), why, cs.File, cs.Line)
+				return
+			}
+		}
+	}
+	if n == 0 {
+		r.viol("K8-recover", fnName, construct, "none of the covered calls is present", why, file, line)
+		return
+	}
+	f2, l2 := r.P.Pos(d.Pos())
+	r.pass("K8-recover", fnName, construct, fmt.Sprintf("%d call(s) covered", n), why, f2, l2)
+}
